@@ -441,15 +441,7 @@ func (l *Lexer) shiftAttribute() []byte {
 		}
 		attrPos := l.r.Pos()
 		delim := c
-		if 0 < len(l.tmplBegin) && l.at(l.tmplBegin...) {
-			l.r.Move(len(l.tmplBegin))
-			l.moveTemplate()
-			for l.at(l.tmplBegin...) {
-				l.r.Move(len(l.tmplBegin))
-				l.moveTemplate()
-			}
-			l.hasTmpl = true
-		} else if delim == '"' || delim == '\'' { // attribute value single- and double-quoted state
+		if (delim == '"' || delim == '\'') && !(0 < len(l.tmplBegin) && l.at(l.tmplBegin...)) { // attribute value single- and double-quoted state
 			l.r.Move(1)
 			for {
 				c := l.r.Peek(0)
@@ -472,6 +464,13 @@ func (l *Lexer) shiftAttribute() []byte {
 			}
 		} else { // attribute value unquoted state
 			for {
+				if 0 < len(l.tmplBegin) && l.at(l.tmplBegin...) {
+					// a template region anywhere in the value belongs to it as a whole
+					l.r.Move(len(l.tmplBegin))
+					l.moveTemplate()
+					l.hasTmpl = true
+					continue
+				}
 				if c := l.r.Peek(0); c == ' ' || c == '>' || c == '\t' || c == '\n' || c == '\r' || c == '\f' || c == 0 && l.r.Err() != nil {
 					break
 				}
